@@ -212,6 +212,34 @@ def fstring_shape(fn: ast.FunctionDef):
     return out
 
 
+C_TUPLES: dict = {}  # module-level tuples of IR classes of the C printer module: name -> [class names]
+
+
+def collect_c_tuples(ix):
+    C_TUPLES.clear()
+    for st in ix.module(C_MOD).body:
+        if isinstance(st, (ast.Assign, ast.AnnAssign)) and st.value is not None and isinstance(st.value, (ast.Tuple, ast.List)):
+            tgt = st.targets[0] if isinstance(st, ast.Assign) else st.target
+            if isinstance(tgt, ast.Name):
+                C_TUPLES[tgt.id] = [ast.unparse(x) for x in st.value.elts]
+
+
+def wrap_names(w):
+    """Class names of a wrap-set argument: a tuple display, a single class, or a module-level tuple."""
+    if isinstance(w, ast.Tuple):
+        out = []
+        for x in w.elts:
+            out.extend(wrap_names(x))
+        return out
+    if isinstance(w, ast.Starred):
+        return wrap_names(w.value)
+    if isinstance(w, ast.Name) and w.id in C_TUPLES:
+        return list(C_TUPLES[w.id])
+    if isinstance(w, ast.BinOp) and isinstance(w.op, ast.Add):
+        return wrap_names(w.left) + wrap_names(w.right)
+    return [ast.unparse(w)]
+
+
 def operand_field(e):
     """ir_to_c_expression(self.f) -> (f, None); parens(self.f, X) -> (f, {class names})."""
     if isinstance(e, ast.Call) and isinstance(e.func, ast.Name) and e.args:
@@ -220,9 +248,7 @@ def operand_field(e):
             if e.func.id == "ir_to_c_expression" and len(e.args) == 1:
                 return a.attr, frozenset()
             if e.func.id == "parens" and len(e.args) == 2:
-                w = e.args[1]
-                names = [ast.unparse(x) for x in w.elts] if isinstance(w, ast.Tuple) else [ast.unparse(w)]
-                return a.attr, frozenset(names)
+                return a.attr, frozenset(wrap_names(e.args[1]))
             if e.func.id == "type_to_c":
                 return "type:" + a.attr, frozenset()
     if isinstance(e, ast.Name):
@@ -529,8 +555,7 @@ def rule_precedence(ctx, ix):
         if fn is not None:
             for n in ast.walk(fn):
                 if isinstance(n, ast.Call) and isinstance(n.func, ast.Name) and n.func.id == "parens" and "n_elements" in ast.unparse(n.args[0]):
-                    w = n.args[1]
-                    wrap = {ast.unparse(x) for x in (w.elts if isinstance(w, ast.Tuple) else [w])}
+                    wrap = set(wrap_names(n.args[1]))
         for child in ("Add", "Subtract"):
             ctx.instance("C06.precedence")
             key = f"codegen/_ir_to_c.py:ir_to_c_expression:{cls}.n_elements<-{child}"
@@ -702,50 +727,71 @@ def rule_struct_layout(ctx, ix):
 # 6. allocation width
 # ------------------------------------------------------------------------------------------------
 def rule_alloc_width(ctx, ix):
-    """sizeof(T) * n is computed in size_t by C; the LLVM printer must widen before multiplying."""
+    """sizeof(T) * n is computed in size_t by C; the LLVM printer must widen before multiplying.  The size
+    argument of the malloc / realloc call is traced back through locals and module-level helper functions;
+    every `builder.mul` on the way must have two 64-bit operands."""
     ctx.rule("C06.alloc-width", "allocation byte size multiplied in 64 bits", min_instances=2)
     limpl = registered_impl(ix, L_MOD, "ir_to_llvm_expression")
-    for cls in ("ArrayAllocate", "ArrayReallocate"):
+    helpers = {f.name: f.node for q, f in ix.funcs.items() if f.module == L_MOD and q == f"{L_MOD}.{f.name}"}
+
+    def assigns(fn):
+        out = {}
+        for st in ast.walk(fn):
+            if isinstance(st, ast.Assign) and len(st.targets) == 1 and isinstance(st.targets[0], ast.Name):
+                out.setdefault(st.targets[0].id, []).append(st.value)
+        return out
+
+    def width(v, env, depth=0, muls=None):
+        """'i32' | 'i64' | None; records (mul call, operand widths) in muls."""
+        if depth > 8:
+            return None
+        if isinstance(v, ast.Name):
+            vals = env.get(v.id, [])
+            ws = {width(x, env, depth + 1, muls) for x in vals}
+            return ws.pop() if len(ws) == 1 else None
+        if isinstance(v, ast.Call):
+            f = ast.unparse(v.func)
+            if f == "llvm.Constant" and v.args:
+                return {"llvm_integer_type": "i32", "llvm_size_type": "i64"}.get(ast.unparse(v.args[0]))
+            if f == "ir_to_llvm_expression":
+                return "i32"  # every integer expression of the IR is int32
+            if f.split(".")[-1] in ("zext", "sext") and len(v.args) == 2:
+                return {"llvm_integer_type": "i32", "llvm_size_type": "i64"}.get(ast.unparse(v.args[1]))
+            if f.split(".")[-1] == "mul":
+                ws = [width(a, env, depth + 1, muls) for a in v.args]
+                if muls is not None:
+                    muls.append((ast.unparse(v)[:70], ws))
+                return ws[0] if len(set(ws)) == 1 else None
+            if f in helpers and f not in ("ir_to_llvm_expression",):
+                h = helpers[f]
+                henv = assigns(h)
+                rets = [n.value for n in ast.walk(h) if isinstance(n, ast.Return) and n.value is not None]
+                ws = {width(r, henv, depth + 1, muls) for r in rets}
+                return ws.pop() if len(ws) == 1 else None
+        return None
+
+    for cls, callee in (("ArrayAllocate", "malloc"), ("ArrayReallocate", "realloc")):
         ctx.instance("C06.alloc-width")
         key = f"codegen/_ir_to_llvm.py:ir_to_llvm_expression:{cls}"
         fn = limpl.get(cls)
-        ty = {}  # local -> 'i32' | 'i64'
-        verdict = None
-        for st in fn.body if fn else []:
-            if not (isinstance(st, ast.Assign) and isinstance(st.targets[0], ast.Name)):
-                continue
-            v = st.value
-            name = st.targets[0].id
-            t = width_of(v, ty)
-            if t:
-                ty[name] = t
-            if name == "memory_size":
-                muls = [n for n in ast.walk(v) if isinstance(n, ast.Call) and isinstance(n.func, ast.Attribute) and n.func.attr == "mul"]
-                if len(muls) == 1:
-                    ws = [width_of(a, ty) for a in muls[0].args]
-                    verdict = ws
-        if verdict == ["i64", "i64"]:
+        if fn is None:
+            ctx.fail("C06.alloc-width", key, "no implementation")
+            continue
+        env = assigns(fn)
+        sizes = []
+        for n in ast.walk(fn):
+            if isinstance(n, ast.Call) and ast.unparse(n.func).split(".")[-1] == "call" and n.args and callee in ast.unparse(n.args[0]) and len(n.args) > 1 and isinstance(n.args[1], ast.List) and n.args[1].elts:
+                sizes.append(n.args[1].elts[-1])
+        if len(sizes) != 1:
+            ctx.fail("C06.alloc-width", key, f"no single {callee} call with a size argument found")
+            continue
+        muls = []
+        w = width(sizes[0], env, 0, muls)
+        bad = [m for m in muls if m[1] != ["i64", "i64"]]
+        if w == "i64" and muls and not bad:
             ctx.ok("C06.alloc-width", key)
         else:
-            ctx.fail("C06.alloc-width", key, f"byte size multiplied with operand widths {verdict}: wraps around in 32 bits where C's size_t product does not")
-
-
-def width_of(v, ty):
-    if isinstance(v, ast.Name):
-        return ty.get(v.id)
-    if isinstance(v, ast.Call):
-        f = ast.unparse(v.func)
-        if f == "llvm.Constant" and v.args:
-            a = ast.unparse(v.args[0])
-            return {"llvm_integer_type": "i32", "llvm_size_type": "i64"}.get(a)
-        if f == "ir_to_llvm_expression":
-            return "i32"
-        if f in ("builder.zext", "builder.sext") and len(v.args) == 2:
-            return {"llvm_integer_type": "i32", "llvm_size_type": "i64"}.get(ast.unparse(v.args[1]))
-        if f == "builder.mul":
-            ws = {width_of(a, ty) for a in v.args}
-            return ws.pop() if len(ws) == 1 else None
-    return None
+            ctx.fail("C06.alloc-width", key, f"byte size is {w}, multiplied with operand widths {[m[1] for m in muls] or None}: wraps around in 32 bits where C's size_t product does not")
 
 
 # ------------------------------------------------------------------------------------------------
@@ -1051,6 +1097,7 @@ def rule_function_scope(ctx, ix):
 
 def run(ctx):
     ix = SourceIndex(ctx.src)
+    collect_c_tuples(ix)
     rule_dispatch(ctx, ix)
     rule_call_arity(ctx, ix)
     rule_operator_tables(ctx, ix)
